@@ -1,34 +1,159 @@
 import TracklibVerif.Model.Features
+import TracklibVerif.Model.Expr
 import TracklibVerif.Drv.Util
 /-! Driver handler for C01 (feature table). Commands:
 
-  run  <xs> <ys> <zs> <ts> <op> <op> …   the model of the code (`St`: dict + rows)
-  arun <xs> <ys> <zs> <ts> <op> <op> …   the specification (`ATab`: name ↦ column)
+  run   <xs> <ys> <zs> <ts> <op> <op> …                 the model of the code (`St`: dict + rows), fresh track
+  arun  <xs> <ys> <zs> <ts> <op> <op> …                 the specification (`ATab`: name ↦ column), fresh track
+  runi  <xs> <ys> <zs> <ts> <names> <cols> <op> …       the same on a track that already carries a table
+  aruni <xs> <ys> <zs> <ts> <names> <cols> <op> …       (names `,`-separated, columns `;`-separated, `_` = none)
 
-The track starts without features. Floats are IEEE bit patterns / `nan`. One op is one token, fields
-separated by `:` (an empty last field = argument not given):
+Floats are IEEE bit patterns / `nan`. A NAME made of `[A-Za-z0-9#]+` is written as it is, any other name
+(empty, blanks, operator or protocol characters, non-ASCII) as `|` followed by the hexadecimal UTF-8 bytes.
+One op is one token, fields separated by `:` (an empty last field = argument not given):
   create:N:s:V | create:N:l:V,V,…    update:…   setitem:…    remove:N    setobs:N:I:V
   addaf:N:const:V | addaf:N:affine:K:C | addaf:N:nextx | addaf:N:feat:SRC:K
-  uvoid:int|dif:IN:OUT   bvoid:add|sub|mul:IN1:IN2:OUT   svoid:add|sub|rsub|mul:IN:V:OUT   sum:IN
+  uvoid:int|dif:IN:OUT   sum:IN
+  bvoid:add|sub|mul|div|pow|mod|above|below:IN1:IN2:OUT
+  svoid:add|sub|rsub|mul|pow|rpow|mod|rmod|above|below|rabove|rbelow:IN:V:OUT
+  sk:div|rdiv|shift|shiftr:IN:V:OUT        (SCALAR_DIVIDER, SCALAR_REV_DIVIDER, SHIFT_CIRCULAR, SHIFT_CIRCULAR_REV)
+  ufn:F:IN:OUT                             (unary void operator by its expression name: I D LOG ABS SQRT DIODE SIGN EXP COS SIN TAN)
+  aggf:F:IN                                (SUM AVG MIN MAX ARGMIN ARGMAX, value modelled)
+  abscurv | estspeed | seg:IN:OUT:THRESHOLD (computeAbsCurv, estimate_speed, segmentation with one feature and one threshold)
   opq:COLS:CELLS:OUT:V,V,…   (operator with opaque values: column reads, cell reads, output, values written)
   rev:IN:OUT   probe:COLS:CELLS   (non-void operator: reads only)
-  expr:tok,tok,…   (RPN of the expression)
+  expr:tok,tok,…   (RPN of the expression; name tokens encoded as above)
 Reply: one block per op, blocks separated by a space:
   outcome~ret~names~columns~rowlens~xs~ys~zs~ts
-with outcome `ok` or `err:<kind>`, ret `-` | `n<v>` | `c<v,…>`, names `,`-separated in dict order,
+with outcome `ok` or `err:<kind>`, ret `-` | `n<v>` | `c<v,…>`, names `,`-separated in dict order (encoded),
 columns `;`-separated in the same order (read through the name), rowlens = len(obs.features). -/
 namespace TV.Drv.C01
 open TV.Features TV.Drv
 
+/-! ### Python's float arithmetic where it is not an IEEE primitive -/
+
+def fnan : Float := 0.0 / 0.0
+
+/-- `|x| = m · 2^e` for a finite `x` -/
+def decode (x : Float) : Nat × Int :=
+  let bits : Nat := x.toBits.toNat
+  let frac : Nat := bits % 2 ^ 52
+  let ex : Nat := (bits / 2 ^ 52) % 2048
+  if ex == 0 then (frac, -1074) else (frac + 2 ^ 52, (ex : Int) - 1075)
+
+/-- C `fmod` (exact): integer arithmetic on the decoded operands -/
+def cFmod (a b : Float) : Float :=
+  if a.isNaN || b.isNaN || a.isInf || b == 0.0 then fnan
+  else if b.isInf then a
+  else
+    let (ma, ea) := decode a
+    let (mb, eb) := decode b
+    let e := min ea eb
+    let A := ma * 2 ^ (ea - e).toNat
+    let B := mb * 2 ^ (eb - e).toNat
+    let r := (Float.ofNat (A % B)).scaleB e
+    if a < 0.0 then -r else r
+
+/-- CPython `float_rem` -/
+def pyMod (a b : Float) : Except Err Float :=
+  if b == 0.0 then .error .value
+  else
+    let m := cFmod a b
+    if m != 0.0 then .ok (if (b < 0.0) != (m < 0.0) then m + b else m)
+    else .ok (if b < 0.0 then -0.0 else 0.0)
+
+def pyPow (a b : Float) : Except Err Float :=
+  match TV.Expr.floatPow a b with
+  | .ok v => .ok v
+  | .error e => .error (if e == "err:zerodiv" then .value else if e == "err:OverflowError" then .value else .unsupported)
+
+def b2f (b : Bool) : Float := if b then 1.0 else 0.0
+
+def pyFn (f : String) (x : Float) : Except Err Float :=
+  if f == "ABS" then .ok x.abs                                          -- Rectifier: `f = abs` (fix 8378be5)
+  else if f == "SQRT" then (if x < 0.0 then .error .value else .ok x.sqrt)
+  else if f == "DIODE" then .ok (x * b2f (x > 0.0))
+  else if f == "SIGN" then .ok (b2f (x >= 0.0) - b2f (x < 0.0))
+  else if f == "EXP" then
+    let r := x.exp
+    if r.isInf && x.isFinite then .error .value else .ok r
+  else if f == "COS" then (if x.isInf then .error .value else .ok x.cos)
+  else if f == "SIN" then (if x.isInf then .error .value else .ok x.sin)
+  else if f == "TAN" then (if x.isInf then .error .value else .ok x.tan)
+  else if f == "LOG" then .ok (if x > 0.0 then x.log else 0.0)
+  else .error .unsupported
+
+/-- start value of Min / Max / Argmin / Argmax: `float('inf')` (fix 68863c7) -/
+def big : Float := 1.0 / 0.0
+
+def argBest (better : Float → Float → Bool) (init : Float) (l : List Float) : Nat :=
+  ((l.zipIdx 0).foldl (fun (acc : Float × Nat) p => if better p.1 acc.1 then (p.1, p.2) else acc) (init, 0)).2
+
+def pyAgg (f : String) (l : List Float) : Except Err Float :=
+  let v := l.filter (fun x => !x.isNaN)
+  if f == "SUM" then .ok (v.foldl (· + ·) 0.0)
+  else if f == "AVG" then (if v.isEmpty then .error .value else .ok (v.foldl (· + ·) 0.0 / Float.ofNat v.length))
+  else if f == "MIN" then .ok (l.foldl (fun m x => if x < m then x else m) big)
+  else if f == "MAX" then .ok (l.foldl (fun m x => if x > m then x else m) (-big))
+  else if f == "ARGMIN" then .ok (Float.ofNat (argBest (fun x m => x < m) big l))
+  else if f == "ARGMAX" then .ok (Float.ofNat (argBest (fun x m => x > m) (-big) l))
+  else .error .unsupported
+
+/-- `int((i - number) % n)` -/
+def pyShiftIdx (number : Float) (i n : Nat) : Except Err Nat :=
+  match pyMod (Float.ofNat i - number) (Float.ofNat n) with
+  | .error e => .error e
+  | .ok m => if m.isNaN then .error .value else if m.isInf then .error .value else .ok m.floor.toUInt64.toNat
+
 def fops : Ops Float where
   zero := 0.0
-  nan := 0.0 / 0.0
+  nan := fnan
   add := (· + ·)
   sub := (· - ·)
   mul := (· * ·)
   ofNat := Float.ofNat
   isNaN := Float.isNaN
   parse := fun s => s.toInt?.map Float.ofInt
+  one := 1.0
+  divide := (· / ·)
+  eqZero := fun x => x == 0.0
+  pow := pyPow
+  mod := pyMod
+  lt := fun a b => a < b
+  fn := pyFn
+  agg := pyAgg
+  shiftIdx := pyShiftIdx
+
+/-! ### names across the protocol -/
+
+def hexDigit (n : Nat) : Char := if n < 10 then Char.ofNat (48 + n) else Char.ofNat (87 + n)
+def hexVal (c : Char) : Option Nat :=
+  if c.isDigit then some (c.toNat - 48) else if 'a' ≤ c ∧ c ≤ 'f' then some (c.toNat - 87) else none
+
+def plainName (s : String) : Bool := !s.isEmpty && s.all (fun c => c.isAlphanum || c == '#')
+
+def encName (s : String) : String :=
+  if plainName s then s
+  else "|" ++ String.ofList (s.toUTF8.toList.flatMap (fun b => [hexDigit (b.toNat / 16), hexDigit (b.toNat % 16)]))
+
+def hexBytes : List Char → Option (List UInt8)
+  | [] => some []
+  | [_] => none
+  | a :: b :: rest => do
+    let x ← hexVal a
+    let y ← hexVal b
+    let t ← hexBytes rest
+    some (UInt8.ofNat (x * 16 + y) :: t)
+
+/-- a name field (never empty as a field: the empty name is `|`) -/
+def name? (s : String) : Option String :=
+  if s.isEmpty then none
+  else if s.front == '|' then do
+    let bytes ← hexBytes (s.drop 1).toString.toList
+    String.fromUTF8? (ByteArray.mk bytes.toArray)
+  else some s
+def optName? (s : String) : Option (Option String) := if s.isEmpty then some none else (name? s).map some
+def nameList? (s : String) : Option (List String) := (splitTok s ',').mapM name?
 
 def showErr : Err → String
   | .reserved => "err:reserved" | .empty => "err:empty" | .unknown => "err:unknown" | .key => "err:key"
@@ -53,7 +178,7 @@ def showOutcome (r : Except Err (Ret Float)) : String × String :=
 def showSt (r : Except Err (Ret Float)) (st : St Float) : String :=
   let (a, b) := showOutcome r
   let names := st.dico.map Prod.fst
-  "~".intercalate [a, b, joinWith "," names,
+  "~".intercalate [a, b, joinWith "," (names.map encName),
     joinWith ";" (names.map fun n => showCol (getC fops n st).1),
     showList toString (st.rows.map List.length),
     showList showFloat st.xs, showList showFloat st.ys, showList showFloat st.zs, showList showFloat st.ts]
@@ -61,18 +186,31 @@ def showSt (r : Except Err (Ret Float)) (st : St Float) : String :=
 def showATab (r : Except Err (Ret Float)) (t : ATab Float) : String :=
   let (a, b) := showOutcome r
   let names := t.cols.map Prod.fst
-  "~".intercalate [a, b, joinWith "," names,
+  "~".intercalate [a, b, joinWith "," (names.map encName),
     joinWith ";" (names.map fun n => showCol (getA fops n t).1),
     showList toString (t.xs.map fun _ => t.cols.length),
     showList showFloat t.xs, showList showFloat t.ys, showList showFloat t.zs, showList showFloat t.ts]
-
-def name? (s : String) : Option String := if s.isEmpty then none else some s
-def optName? (s : String) : Option (Option String) := some (if s.isEmpty then none else some s)
 
 def init? (k v : String) : Option (Init Float) :=
   if k == "s" then (float? v).map .scalar
   else if k == "l" then (floatList? v).map .list
   else none
+
+def bop? (k : String) : Option BOp :=
+  if k == "add" then some .adder else if k == "sub" then some .substracter else if k == "mul" then some .multiplier
+  else if k == "div" then some .divider else if k == "pow" then some .power else if k == "mod" then some .modulo
+  else if k == "above" then some .above else if k == "below" then some .below else none
+
+def sop? (k : String) : Option SOp :=
+  if k == "add" then some .adder else if k == "sub" then some .substracter else if k == "rsub" then some .revSubstracter
+  else if k == "mul" then some .multiplier else if k == "pow" then some .power else if k == "rpow" then some .revPower
+  else if k == "mod" then some .modulo else if k == "rmod" then some .revModulo else if k == "above" then some .above
+  else if k == "below" then some .below else if k == "rabove" then some .revAbove else if k == "rbelow" then some .revBelow
+  else none
+
+def skind? (k : String) : Option SKind :=
+  if k == "div" then some .divider else if k == "rdiv" then some .revDivider else if k == "shift" then some .shift
+  else if k == "shiftr" then some .shiftRev else none
 
 def op? (tok : String) : Option (Op Float) :=
   match tok.splitOn ":" with
@@ -88,43 +226,49 @@ def op? (tok : String) : Option (Op Float) :=
   | ["uvoid", k, inp, out] => do
     let k ← (if k == "int" then some UOp.integrator else if k == "dif" then some UOp.differentiator else none)
     some (.unaryVoid k (← name? inp) (← optName? out))
-  | ["bvoid", k, in1, in2, out] => do
-    let k ← (if k == "add" then some BOp.adder else if k == "sub" then some BOp.substracter
-             else if k == "mul" then some BOp.multiplier else none)
-    some (.binaryVoid k (← name? in1) (← name? in2) (← optName? out))
-  | ["svoid", k, inp, v, out] => do
-    let k ← (if k == "add" then some SOp.adder else if k == "sub" then some SOp.substracter
-             else if k == "rsub" then some SOp.revSubstracter else if k == "mul" then some SOp.multiplier else none)
-    some (.scalarVoid k (← name? inp) (← float? v) (← optName? out))
+  | ["bvoid", k, in1, in2, out] => do some (.binaryVoid (← bop? k) (← name? in1) (← name? in2) (← optName? out))
+  | ["svoid", k, inp, v, out] => do some (.scalarVoid (← sop? k) (← name? inp) (← float? v) (← optName? out))
+  | ["sk", k, inp, v, out] => do some (.scalarK (← skind? k) (← name? inp) (← float? v) (← optName? out))
+  | ["ufn", f, inp, out] => do some (.fnVoid f (← name? inp) (← optName? out))
+  | ["aggf", f, inp] => do some (.aggFn f (← name? inp))
   | ["sum", inp] => do some (.sum (← name? inp))
+  | ["abscurv"] => some .absCurv
+  | ["estspeed"] => some .estSpeed
+  | ["seg", inp, out, thr] => do some (.segment (← name? inp) (← name? out) (← float? thr))
   | ["opq", cols, cells, out, vals] => do
-    let cs := splitTok cols ','
-    let ce := splitTok cells ','
-    if cs.any String.isEmpty || ce.any String.isEmpty then none
-    else some (.opaqueVoid cs ce (← name? out) (← floatList? vals))
+    some (.opaqueVoid (← nameList? cols) (← nameList? cells) (← name? out) (← floatList? vals))
   | ["rev", inp, out] => do some (.reverser (← name? inp) (← optName? out))
-  | ["probe", cols, cells] =>
-    let cs := splitTok cols ','
-    let ce := splitTok cells ','
-    if cs.any String.isEmpty || ce.any String.isEmpty then none else some (.probe cs ce)
-  | ["expr", toks] =>
-    let l := splitTok toks ','
-    if l.isEmpty || l.any String.isEmpty then none else some (.expr l)
+  | ["probe", cols, cells] => do some (.probe (← nameList? cols) (← nameList? cells))
+  | ["expr", toks] => do
+    let l ← nameList? toks
+    if l.isEmpty then none else some (.expr l)
   | _ => none
 
+def runFrom (cmd : String) (xs ys zs ts : List Float) (cols : List (String × List Float)) (ops : List (Op Float)) : String :=
+  if ys.length != xs.length || zs.length != xs.length || ts.length != xs.length then "bad-request"
+  else if cols.any (fun p => p.2.length != xs.length) || !(cols.map Prod.fst).Nodup then "bad-request"
+  else if cmd == "run" || cmd == "runi" then
+    joinWith " " ((trace fops ops (mkSt cols xs ys zs ts)).map fun r => showSt r.1 r.2)
+  else if cmd == "arun" || cmd == "aruni" then
+    let t : ATab Float := { cols := cols, xs := xs, ys := ys, zs := zs, ts := ts }
+    joinWith " " ((trace fops ops t).map fun r => showATab r.1 r.2)
+  else "bad-request"
+
 def handle (cmd : String) (args : List String) : String :=
-  match args with
-  | xs :: ys :: zs :: ts :: ops =>
-    match floatList? xs, floatList? ys, floatList? zs, floatList? ts, ops.mapM op? with
-    | some xs, some ys, some zs, some ts, some ops =>
-      if ys.length != xs.length || zs.length != xs.length || ts.length != xs.length then "bad-request"
-      else if cmd == "run" then
-        let st : St Float := { dico := [], rows := xs.map (fun _ => []), xs := xs, ys := ys, zs := zs, ts := ts }
-        joinWith " " ((trace fops ops st).map fun r => showSt r.1 r.2)
-      else if cmd == "arun" then
-        let t : ATab Float := { cols := [], xs := xs, ys := ys, zs := zs, ts := ts }
-        joinWith " " ((trace fops ops t).map fun r => showATab r.1 r.2)
-      else "bad-request"
-    | _, _, _, _, _ => "bad-request"
-  | _ => "bad-request"
+  if cmd == "run" || cmd == "arun" then
+    match args with
+    | xs :: ys :: zs :: ts :: ops =>
+      match floatList? xs, floatList? ys, floatList? zs, floatList? ts, ops.mapM op? with
+      | some xs, some ys, some zs, some ts, some ops => runFrom cmd xs ys zs ts [] ops
+      | _, _, _, _, _ => "bad-request"
+    | _ => "bad-request"
+  else if cmd == "runi" || cmd == "aruni" then
+    match args with
+    | xs :: ys :: zs :: ts :: names :: cols :: ops =>
+      match floatList? xs, floatList? ys, floatList? zs, floatList? ts, nameList? names, floatListList? cols, ops.mapM op? with
+      | some xs, some ys, some zs, some ts, some names, some cols, some ops =>
+        if names.length != cols.length then "bad-request" else runFrom cmd xs ys zs ts (names.zip cols) ops
+      | _, _, _, _, _, _, _ => "bad-request"
+    | _ => "bad-request"
+  else "bad-request"
 end TV.Drv.C01
